@@ -28,6 +28,7 @@ MODULE_KINDS = [
     "generic interface",
     "abstract interface",
     "operator interface",
+    "generic interface of bodies",
 ]
 ATTR_KINDS = ("variable", "parameter", "type")  # kinds whose declaration can carry an access attribute
 
@@ -78,6 +79,12 @@ def entity_lines(kind, n, attr, case=0):
         return (
             [f"interface {name}", f"  module procedure impl{n}", "end interface"],
             [f"subroutine impl{n}(a)", "  integer :: a", f"end subroutine impl{n}"],
+        )
+    if kind == "generic interface of bodies":
+        # the specific procedure is declared by an interface body: it is an entity of its own (gb<n>) with the scope's default
+        return (
+            [f"interface {name}", f"  subroutine gb{n}(a)", "    integer :: a", f"  end subroutine gb{n}", "end interface"],
+            [],
         )
     if kind == "abstract interface":
         return (
@@ -135,6 +142,7 @@ def find_entity(mod, kind, n):
         "subroutine": "subroutines",
         "function": "functions",
         "generic interface": "interfaces",
+        "generic interface of bodies": "interfaces",
         "operator interface": "interfaces",
         "abstract interface": "absinterfaces",
     }[kind]
@@ -163,6 +171,15 @@ def run_module_case(st: Stats, default, default_pos, ents, context, stratum):
         found = find_entity(mods[0], kind, n) if mods else []
         got = found[0].permission if len(found) == 1 else f"<{len(found)} entities>"
         obs_all.append(got)
+        if kind == "generic interface of bodies" and len(found) == 1:
+            body = [p for p in list(getattr(found[0], "subroutines", [])) + list(getattr(found[0], "functions", [])) if p.name.lower() == f"gb{n}"]
+            body_got = body[0].permission if len(body) == 1 else f"<{len(body)} bodies>"
+            body_want = "private" if default == "private" else "public"
+            if body_got != body_want and not (default == "private" and default_pos == "late"):
+                bad += 1
+                st.violation("wrong-permission", stratum, dict(kind="interface body", default=default, default_pos=default_pos if default != "none" else "-", attr="none",
+                                                                stmt="none", stmt_pos="-", generic_stmt=stmt, expected=body_want, observed=body_got, n_entities=len(ents)),
+                             inp, body_got, body_want)
         if got != want:
             bad += 1
             st.violation(
